@@ -1310,3 +1310,46 @@ Proof.
   - intros a Ha. destruct (H3 a) as (r & Hr & Hra); [now apply Hup|].
     exists r. split; auto. now apply Hup.
 Qed.
+
+(* ------------------------------------------------------------------ the call sequence *)
+Lemma dfs_log_fst fuel fp limit : forall st V R calls,
+  option_map fst (dfs_log fuel fp limit st V R calls) = dfs fuel fp limit st V R.
+Proof.
+  induction fuel as [|fuel IH]; intros st V R calls; cbn [dfs_log dfs]; [reflexivity|].
+  destruct st as [|[cur d] rest]; [reflexivity|].
+  destruct (mem (d_id cur) V); [apply IH|].
+  destruct ((0 <? limit)%Z && (Z.of_nat d =? limit)%Z)%bool; [apply IH|].
+  destruct (fp (d_id cur)); apply IH.
+Qed.
+
+(* FindPredecessors is called at most once per node, and only on nodes that end up visited *)
+Lemma dfs_log_calls fuel fp limit : forall st V R calls roots out,
+  NoDup calls -> (forall c, In c calls -> In c V) ->
+  dfs_log fuel fp limit st V R calls = Some (roots, out) ->
+  NoDup out /\ (forall c, In c calls -> In c out).
+Proof.
+  induction fuel as [|fuel IH]; intros st V R calls roots out Hnd Hsub H; cbn [dfs_log] in H; [discriminate|].
+  destruct st as [|[cur d] rest].
+  - injection H as _ <-. split.
+    + apply NoDup_rev. exact Hnd.
+    + intros c Hc. now apply in_rev in Hc.
+  - destruct (mem (d_id cur) V) eqn:Em; [eapply IH; eauto|].
+    apply mem_not_In in Em.
+    assert (Hsub' : forall c, In c calls -> In c (d_id cur :: V)) by (intros c Hc; right; auto).
+    destruct ((0 <? limit)%Z && (Z.of_nat d =? limit)%Z)%bool; [eapply IH; eauto|].
+    assert (Hnd' : NoDup (d_id cur :: calls)).
+    { constructor; [intro Hc; apply Em; now apply Hsub | exact Hnd]. }
+    assert (Hsub2 : forall c, In c (d_id cur :: calls) -> In c (d_id cur :: V)).
+    { intros c [<- | Hc]; [left; reflexivity | right; auto]. }
+    destruct (fp (d_id cur)) as [|p0 ps];
+      (destruct (IH _ _ _ _ _ _ Hnd' Hsub2 H) as (H1 & H2); split; [exact H1 | intros c Hc; apply H2; right; exact Hc]).
+Qed.
+
+Lemma find_roots_log_spec fuel s fs limit node roots out :
+  find_roots_log fuel s fs limit node = Some (roots, out) ->
+  find_roots fuel s fs limit node = Some roots /\ NoDup out.
+Proof.
+  unfold find_roots_log, find_roots, find_roots_fp. intro H. split.
+  - rewrite <- dfs_log_fst with (calls := []). now rewrite H.
+  - eapply (dfs_log_calls fuel (find_preds s fs) limit _ _ _ [] roots out); eauto; try constructor; try (intros c []).
+Qed.
